@@ -399,6 +399,10 @@ func runC15(t *testing.T, tape *verifsim.Tape, prop, tier string, keepLog bool) 
 		w := newAPIWorld(t, sim, prop, gpu, []int{0, 1, 2, 3, 1}[d("maxrunners", 5)], []int{0, 1, 4}[d("parallel", 3)], 512)
 		cw := &c15World{apiWorld: w}
 		w.script = cw.completion
+		w.onCloseInUse = func(s *simLlama, n int) {
+			verifsim.Probe("c01_http_monitor_armed")
+			verifsim.Violate("C01", "close-in-use", "close-in-use:http:"+callerRepoFunc(), fmt.Sprintf("runner #%d (%s) is being shut down while %d completion(s) of requests that have not ended are running on it", s.id, s.model[strings.LastIndex(s.model, "/")+1:], n))
+		}
 		w.loadFail = []int{0, 0, 8, 4}[d("loadfail", 4)]
 		w.pingFail = []int{0, 0, 10}[d("pingfail", 3)]
 		w.slowClose = d("slowclose", 2) == 0
